@@ -25,7 +25,8 @@ def run_one(pid, patch, tier="quick"):
         p = subprocess.run(["patch", "-p1", "-s", "-d", scratch, "-i", os.path.abspath(patch)],
                            capture_output=True, text=True)
         if p.returncode != 0:
-            return {"patch": patch, "status": "patch-failed", "out": p.stdout + p.stderr}
+            return {"patch": os.path.relpath(patch, HERE), "property": pid, "status": "patch-failed",
+                    "out": (p.stdout + p.stderr)[-300:]}
         env = dict(os.environ, VERIF_SRC=os.path.join(scratch, "src"),
                    VERIF_EVIDENCE_DIR=os.path.join(scratch, "evidence"),
                    VERIF_FOUND_DIR=os.path.join(scratch, "found"))
@@ -33,7 +34,7 @@ def run_one(pid, patch, tier="quick"):
         r = subprocess.run([os.path.join(HERE, "check"), pid, tier], capture_output=True,
                            text=True, env=env)
         sigs = [l.strip() for l in r.stdout.splitlines() if l.strip().startswith("signature ")]
-        return {"patch": os.path.relpath(patch, HERE), "property": pid, "exit": r.returncode,
+        return {"patch": os.path.relpath(patch, HERE), "property": pid, "tier": tier, "exit": r.returncode,
                 "caught": r.returncode == 1, "wall_s": round(time.time() - t0, 1),
                 "signatures": [s[:200] for s in sigs][:6],
                 "stderr_tail": r.stderr[-400:] if r.returncode == 2 else ""}
@@ -71,13 +72,13 @@ def main():
     old = {}
     if os.path.exists(out):
         try:
-            old = {r["patch"]: r for r in json.load(open(out))["results"]}
+            old = {r["patch"] + "@" + r.get("tier", "quick"): r for r in json.load(open(out))["results"]}
         except Exception:  # noqa: BLE001
             old = {}
     for r in results:
-        old[r["patch"]] = r
+        old[r["patch"] + "@" + r.get("tier", tier)] = r
     with open(out, "w") as f:
-        json.dump({"results": sorted(old.values(), key=lambda r: r["patch"])}, f, indent=1)
+        json.dump({"results": sorted(old.values(), key=lambda r: (r["patch"], r.get("tier", "quick")))}, f, indent=1)
     missed = [r for r in results if not r.get("caught")]
     print(f"{len(results) - len(missed)}/{len(results)} caught")
     return 0
